@@ -8,7 +8,7 @@ import shutil
 
 import numpy as np
 
-from lib import core, tlc, recio, naming
+from lib import core, tlc, recio, naming, inconadt
 
 GEN = """---- MODULE GEN_InconFile ----
 EXTENDS InconFile, Json
@@ -341,6 +341,10 @@ def run(tier):
     rep.leaves = ["values compared with Python's own formatting of the written value at the decimals that fit the field"]
     rep.assumptions = ["names are given in repaired (fix_blockname) form", "all blocks of a file carry the same number of variables"]
     rep.exhaustive = False
+    try:
+        inconadt.observe(rep, quick)
+    except Exception as e:          # (beyond the properties: never a verdict, never a failure of this check)
+        print("OBSERVATION beyond-properties (t2incon container): harness stopped: %r" % (e,))
     return rep.finish()
 
 
